@@ -20,7 +20,7 @@ RULE = ("Random event dictionaries: every subset/order of data/event/id/retry; d
         "of 1-6 events through the real ASGI (virtual time, pings interleaved) and WSGI (thread relay, 20 ms pings) SendEventResponse. "
         "Non-trivial = data contains a line/paragraph separator, is empty, or starts with space/colon, or the event lacks data; distinct = "
         "(event dict, charset).")
-RULE += ' Also: the same dict object yielded repeatedly, re-iterable producers served twice by one response object, data lines of 70 000 characters, a WSGI client that takes several ping intervals per chunk.'
+RULE += ' Also: text that is not in a Unicode normal form (decomposed, compatibility, singleton characters) in data, names and ids; every event that carries a retry writes it (the retry fields of the stream, in order); the same dict object yielded repeatedly, re-iterable producers served twice by one response object, data lines of 70 000 characters, a WSGI client that takes several ping intervals per chunk.'
 ASSUMPTIONS = [
     "data that ends in a line break may arrive with or without that last break (the statement does not say whether 'a\\n' has one or two lines); never with more",
     "events without a data key dispatch nothing by the standard; for them only the id/retry side effects and 'no event fired' are checked",
@@ -28,7 +28,9 @@ ASSUMPTIONS = [
 ]
 
 SEPS = ["\n", "\r", "\r\n", "\x0b", "\x0c", "\x1c", "\x1d", "\x1e", "\x85", " ", " "]
-ALPHA = SEPS + [" ", "  ", ":", "", "a", "é", "中", '{"k": 1}', "﻿", "data: x", "\t", "id: 9", "\n\n", "ÿ", "line"]
+ALPHA = SEPS + [" ", "  ", ":", "", "a", "é", "中", '{"k": 1}', "﻿", "data: x", "\t", "id: 9", "\n\n", "ÿ", "line",
+                # text that is not in a Unicode normal form: decomposed, compatibility and singleton characters are sent as they are
+                "e\u0301", "\u212b", "\u1100\u1161", "a\u0323\u0302", "\ufb01", "\u2126", "\u00e9"]
 CHARSETS = ["utf-8", "utf-8", "utf-8", "latin-1", "gbk", "cp1252"]
 
 
@@ -51,9 +53,9 @@ def gen_event(rng, charset):
             else:
                 ev[k] = "".join(rng.choice(ALPHA) for _ in range(rng.randrange(1, 7)))
         elif k == "event":
-            ev[k] = rng.choice(["e", "", "message", "a b", " lead", "x:y", "é", "update ", "e\tf", "data", "e\u2028f", "n\x85l", "v\x0bt", "f\x0cf", "g\x1dg"])  # (only CR and LF end a line)
+            ev[k] = rng.choice(["e", "", "message", "a b", " lead", "x:y", "é", "update ", "e\tf", "data", "e\u2028f", "n\x85l", "v\x0bt", "f\x0cf", "g\x1dg", "e\u0301v", "\u212bngstrom"])  # (only CR and LF end a line)
         elif k == "id":
-            ev[k] = rng.choice(["1", "", "a b", " 7", "é", "0", "x:y", "id", "-1", "i\u2029d", "i\x85", "\x1c9"]) + rng.choice(["", "", str(rng.randrange(1000))])
+            ev[k] = rng.choice(["1", "", "a b", " 7", "é", "0", "x:y", "id", "-1", "i\u2029d", "i\x85", "\x1c9", "i\u0301", "\u2126"]) + rng.choice(["", "", str(rng.randrange(1000))])
         else:
             ev[k] = rng.choice([0, 1, 5, 3000, 10 ** 9])
     # keep what the charset can encode
@@ -137,6 +139,9 @@ def judge_stream(ctx, yielded, wire_text, case, where):
         ctx.violation(f"final-last-event-id-differs|{where}", case, f"{cur_id!r} -> {p.last_event_id!r}")
     if p.reconnection_time != retry:
         ctx.violation(f"retry-differs|{where}", case, f"{retry!r} -> {p.reconnection_time!r}")
+    elif p.retry_fields != [ev["retry"] for ev in yielded if "retry" in ev]:
+        # each event's own block carries its retry (an event repeating the value in force included)
+        ctx.violation(f"retry-differs|not-every-event-carries-its-own|{where}", case, f"{[ev['retry'] for ev in yielded if 'retry' in ev]!r} -> {p.retry_fields!r}")
 
 
 def direct(ctx, ev, charset):
